@@ -52,6 +52,7 @@ func jobsFor(prop, tier string) []Job {
 		n := pick(6, 8)
 		for _, k := range []string{"arraylist", "singlylinkedlist", "doublylinkedlist"} {
 			add("list", fmt.Sprintf("%s.n%d", k, n), n, map[string]string{"c": k}, map[string]int{"n": n, "u": 3})
+			add("list", fmt.Sprintf("%s.struct.n4", k), 4, map[string]string{"c": k, "elem": "struct"}, map[string]int{"n": 4})
 			// deep, data-independent: fresh values dropped from the fingerprint, state = (length, capacity)
 			dn := pick(70, 140)
 			add("list", fmt.Sprintf("%s.deep.n%d", k, dn), n, map[string]string{"c": k}, map[string]int{"n": dn, "deep": 1})
@@ -149,6 +150,16 @@ func jobsFor(prop, tier string) []Job {
 			add("enum", fmt.Sprintf("%s.n%d", c, n), 10, map[string]string{"c": c}, map[string]int{"n": n, "u": 3, "maxn": n})
 		}
 		add("enum", fmt.Sprintf("linkedhashset.u%d", n), 5, map[string]string{"c": "linkedhashset"}, map[string]int{"u": n, "maxn": n})
+		// large receivers (data-independent elements, fixed predicate / function families): results
+		// past every growth threshold of the result container
+		dn := pick(36, 70)
+		for _, c := range []string{"arraylist", "singlylinkedlist", "doublylinkedlist", "linkedhashset"} {
+			m := dn
+			if c == "arraylist" { // its states are (length, capacity) pairs: quadratically many
+				m = pick(18, 36)
+			}
+			add("enum", fmt.Sprintf("%s.deep.n%d", c, m), 10, map[string]string{"c": c}, map[string]int{"n": m, "deep": 1, "maxn": n})
+		}
 		for _, c := range []string{"nat", "rev", "coarse"} {
 			add("enum", fmt.Sprintf("treeset.%s.u%d", c, n+1), 5, map[string]string{"c": "treeset", "cmp": c}, map[string]int{"u": n + 1, "maxn": n + 1})
 			add("enum", fmt.Sprintf("treemap.%s.u%d", c, n), 8, map[string]string{"c": "treemap", "cmp": c}, map[string]int{"u": n, "vu": 2, "maxn": n})
@@ -314,7 +325,9 @@ func jobsFor(prop, tier string) []Job {
 		n := pick(5, 7)
 		for _, k := range []string{"arraystack", "linkedliststack", "arrayqueue", "linkedlistqueue"} {
 			add("seq", k, n, map[string]string{"c": k}, map[string]int{"n": n, "u": 3})
+			add("seq", k+".struct", 4, map[string]string{"c": k, "elem": "struct"}, map[string]int{"n": 4})
 		}
+		add("seq", "ring3.struct", 4, map[string]string{"c": "circularbuffer", "elem": "struct"}, map[string]int{"cap": 3})
 		for c := 1; c <= pick(4, 6); c++ {
 			add("seq", fmt.Sprintf("ring%d", c), c, map[string]string{"c": "circularbuffer"}, map[string]int{"cap": c, "u": 2})
 		}
@@ -509,6 +522,23 @@ func intListSys(kind string, n, u int) *ListSys[int] {
 		Cmps: map[string]func(a, b int) int{"nat": intCmp("nat"), "rev": intCmp("rev"), "coarse": intCmp("coarse")}}
 }
 
+// struct elements: encoding/json MERGES into an existing struct (omitted fields keep their old
+// value) and skips null, so a decode into reused storage shows only with such elements
+var heJSONTexts = []string{`[]`, `[null]`, `[{"P":1}]`, `[{"ID":1},{"P":2}]`, `[{},{"P":1,"ID":1}]`, `[{"P":2,"ID":1},null,{}]`}
+
+func heListSys(kind string, n int) *ListSys[HE] {
+	byP := func(a, b HE) int { return a.P - b.P }
+	nat := func(a, b HE) int {
+		if a.P != b.P {
+			return a.P - b.P
+		}
+		return a.ID - b.ID
+	}
+	return &ListSys[HE]{Kind: kind, U: []HE{{0, 0}, {1, 1}, {2, 0}}, Absent: HE{7, 7}, Poison: HE{-99, -99}, N: n,
+		Cmps:      map[string]func(a, b HE) int{"nat": nat, "rev": func(a, b HE) int { return nat(b, a) }, "coarse": byP},
+		JSONTexts: heJSONTexts}
+}
+
 func intSetSys(kind, cmpN string, u int) *SetSys[int] {
 	return &SetSys[int]{Kind: kind, CmpN: cmpN, U: intU(u), Absent: u + 2, Poison: -99, Cmp: intCmp(cmpN), Tuples: defaultSetTuples(u)}
 }
@@ -593,7 +623,14 @@ func init() {
 			exploreJob(j, r, makeSys(j.s("c", ""), j), nil)
 			return
 		}
-		exploreJob(j, r, intListSys(j.s("c", ""), j.p("n", 6), j.p("u", 3)), nil)
+		if j.s("elem", "") == "struct" {
+			exploreJob(j, r, heListSys(j.s("c", ""), j.p("n", 4)), nil)
+			return
+		}
+		ls := intListSys(j.s("c", ""), j.p("n", 6), j.p("u", 3))
+		// a loaded list is a start state too; null entries decode "over" whatever a reused slot held
+		ls.JSONTexts = []string{`[]`, `null`, `[null]`, `[1,null]`, `[null,null,1]`, `[2,1,0]`}
+		exploreJob(j, r, ls, nil)
 	}
 	jobKinds["seq"] = func(j Job, r *JobResult) {
 		if j.p("deep", 0) == 1 {
@@ -601,7 +638,13 @@ func init() {
 			exploreJob(j, r, s, nil)
 			return
 		}
+		if j.s("elem", "") == "struct" {
+			exploreJob(j, r, &SeqSys[HE]{Kind: j.s("c", ""), Cap: j.p("cap", 0), N: j.p("n", 4), Poison: HE{-99, -99},
+				U: []HE{{0, 0}, {1, 1}, {2, 0}}, JSONTexts: heJSONTexts}, nil)
+			return
+		}
 		s := &SeqSys[int]{Kind: j.s("c", ""), Cap: j.p("cap", 0), N: j.p("n", 5), Poison: -99}
+		s.JSONTexts = []string{`null`, `[null]`, `[1,null]`, `[null,null,1]`}
 		// FromJSON of every array up to length min(cap+1, 3) / 3 over the universe
 		maxl := 3
 		if s.Cap > 0 && s.Cap+1 < maxl {
